@@ -688,6 +688,10 @@ impl Engine for Conv {
         ev.note = note;
         ev
     }
+    fn exec_raw(&self, _prop: &str, c: &Case) -> vcore::out::Outs {
+        let (sl, _) = layouts(c);
+        exec(c.op, c.lay, c.lay2, c.a & sl.mask(), c.b)
+    }
     fn selftest(&self) -> Result<u64, String> {
         // hand-computed vectors for the float oracle: 0.1f32 -> I8F8 (25.6 -> 26), ties
         let r = |bits: u32, f: u32| -> i128 {
